@@ -41,50 +41,83 @@ def nat (s : String) : Nat := s.toNat?.getD 0
 
 def joinSp (xs : List String) : String := " ".intercalate xs
 
+/-- streaming block reader: calls `f` on every complete block -/
+partial def forBlocks {σ : Type} (h : IO.FS.Stream) (init : σ) (f : σ → Block → IO σ) : IO σ := do
+  let rec loop (st : σ) (cur : Option Block) : IO σ := do
+    let line ← h.getLine
+    if line.isEmpty then
+      match cur with
+      | some b => f st { b with outs := b.outs.reverse }
+      | none => pure st
+    else
+      let l := if line.endsWith "\n" then (line.dropEnd 1).toString else line
+      if l.startsWith "> " || l == ">" then
+        let st ← match cur with
+          | some b => f st { b with outs := b.outs.reverse }
+          | none => pure st
+        let body := (l.drop 2).toString
+        loop st (some { op := fields body, outs := [], raw := body })
+      else if l.startsWith "< " then
+        match cur with
+        | some b => loop st (some { b with outs := fields ((l.drop 2).toString) :: b.outs })
+        | none => loop st cur
+      else loop st cur
+  loop init none
+
+structure RunSt (σ : Type) where
+  st : Option σ := none
+  buf : String := ""
+  caseId : String := "?"
+  k : Nat := 0
+
+def flushIf (out : IO.FS.Stream) (buf : String) : IO String := do
+  if buf.utf8ByteSize > 65536 then
+    out.putStr buf
+    pure ""
+  else pure buf
+
 /-- generic model runner: `init` builds the state from a `case` line, `step` consumes a block -/
-def runModel {σ : Type} (init : List String → σ) (step : σ → Block → σ × List String)
-    (blocks : Array Block) : IO Unit := do
+def runModel {σ : Type} (init : List String → σ) (step : σ → Block → σ × List String) : IO Unit := do
   let out ← IO.getStdout
-  let mut st : Option σ := none
-  for b in blocks do
-    out.putStrLn ("> " ++ b.raw)
+  let inp ← IO.getStdin
+  let fin ← forBlocks inp ({} : RunSt σ) fun rs b => do
+    let buf := rs.buf ++ "> " ++ b.raw ++ "\n"
     match b.op with
-    | "case" :: rest => st := some (init rest)
+    | "case" :: rest => pure { rs with st := some (init rest), buf := ← flushIf out buf }
     | _ =>
-      match st with
-      | none => pure ()
+      match rs.st with
+      | none => pure { rs with buf := buf }
       | some s =>
         let (s', outs) := step s b
-        st := some s'
-        for o in outs do out.putStrLn ("< " ++ o)
+        let buf := outs.foldl (fun acc o => acc ++ "< " ++ o ++ "\n") buf
+        pure { rs with st := some s', buf := ← flushIf out buf }
+  out.putStr fin.buf
   out.flush
 
-/-- generic monitor runner: prints `FAIL prop=<id> case=<n> block=<k> <reason>` lines and a
-`STAT` line per case produced by `finish`. -/
+/-- generic monitor runner: prints `FAIL prop=<id> <reason> case=<n> block=<k>` lines and the
+`STAT` lines produced by `finish` at the end of each case. -/
 def runMon {μ : Type} (init : List String → μ) (step : μ → Block → μ × List String)
-    (finish : μ → List String) (blocks : Array Block) : IO Unit := do
+    (finish : μ → List String) : IO Unit := do
   let out ← IO.getStdout
-  let mut st : Option μ := none
-  let mut caseId := "?"
-  let mut k := 0
-  for b in blocks do
+  let inp ← IO.getStdin
+  let fin ← forBlocks inp ({} : RunSt μ) fun rs b => do
     match b.op with
     | "case" :: rest =>
-      if let some s := st then
-        for l in finish s do out.putStrLn (l ++ " case=" ++ caseId)
-      caseId := rest.headD "?"
-      st := some (init rest)
-      k := 0
+      let buf := match rs.st with
+        | some s => (finish s).foldl (fun acc l => acc ++ l ++ " case=" ++ rs.caseId ++ "\n") rs.buf
+        | none => rs.buf
+      pure { st := some (init rest), buf := ← flushIf out buf, caseId := rest.headD "?", k := 1 }
     | _ =>
-      match st with
-      | none => pure ()
+      match rs.st with
+      | none => pure { rs with k := rs.k + 1 }
       | some s =>
         let (s', fails) := step s b
-        st := some s'
-        for f in fails do out.putStrLn ("FAIL " ++ f ++ " case=" ++ caseId ++ " block=" ++ toString k)
-    k := k + 1
-  if let some s := st then
-    for l in finish s do out.putStrLn (l ++ " case=" ++ caseId)
+        let buf := fails.foldl (fun acc f => acc ++ "FAIL " ++ f ++ " case=" ++ rs.caseId ++ " block=" ++ toString rs.k ++ "\n") rs.buf
+        pure { rs with st := some s', buf := ← flushIf out buf, k := rs.k + 1 }
+  let buf := match fin.st with
+    | some s => (finish s).foldl (fun acc l => acc ++ l ++ " case=" ++ fin.caseId ++ "\n") fin.buf
+    | none => fin.buf
+  out.putStr buf
   out.flush
 
 end Driver
